@@ -153,14 +153,18 @@ pub fn check(tier: Tier) -> i32 {
     let budget = Budget::new(wall_cap(tier));
     rep.mandatory_scopes = 1;
     // ---- pool ----
-    let n = 5;
+    let n = if tier == Tier::Quick { 5 } else { 6 };
     let mut classes: BTreeMap<u64, String> = BTreeMap::new();
     for a in ["blk", "flow", "prop", "doc"] {
         let sp = sigma(a, n);
         let (acc, _) = sweep_strings(&sp, &budget, |s, acc| {
             if let Ok(o) = observe(s, Backend::Str, Api::Iter) {
                 if o.err.is_none() {
-                    let key = h64(&o.evs.iter().map(|e| &e.0).collect::<Vec<_>>());
+                    // class = event sentence with scalar styles, anchors/tags and a coarse value shape
+                    let key = h64(&o.evs.iter().map(|e| match &e.0 {
+                        Ev::Sc(v, st, a, t) => format!("={st:?}{}{}{}", a, t.is_some(), if v.is_empty() { 0 } else if v == "~" { 1 } else if v.contains('\n') { 2 } else { 3 }),
+                        other => format!("{other:?}"),
+                    }).collect::<Vec<_>>());
                     if acc.class(key) {
                         acc.counters.insert(format!("{key}\u{1}{s}"), 1);
                     }
@@ -186,8 +190,8 @@ pub fn check(tier: Tier) -> i32 {
     let suite: Vec<Member> = load_suite().map(|c| c.into_iter().filter(|c| !c.fail).filter_map(|c| member(&c.yaml)).collect()).unwrap_or_default();
     eprintln!("[C15] pool: {} table + {} class representatives, suite members {}", table_n, pool.len() - table_n, suite.len());
     let (n2, n3, n4, ns) = match tier {
-        Tier::Quick => (500usize, 40usize, 12usize, 60usize),
-        Tier::Thorough => (pool.len(), 150, 40, suite.len()),
+        Tier::Quick => (700usize, 50usize, 14usize, 100usize),
+        Tier::Thorough => (3000, 150, 40, suite.len()),
     };
     let n2 = n2.min(pool.len());
     // pairs
